@@ -29,28 +29,29 @@ ALLOWED_AXIOMS = [
 ]
 META = {
     "level_text": "Machine-checked proofs (Coq, over the real numbers) about Gallina functions that are REGENERATED from platypus/problems.py by a fail-closed "
-                  "Python-AST translator on every run: for ZDT1-4,6 (every n >= 2), DTLZ1-4 (every number of objectives M >= 1, every n >= M-1), DTLZ7, UF1-4,7 (every n >= 3) "
-                  "the generated objective vector equals the published formula written independently from the papers, has exactly nobjs entries and satisfies the published "
-                  "front bound (ZDT g >= 1 and f2 >= front(f1); DTLZ1 sum f = (1+g)/2 >= 1/2; DTLZ2-4 sum f^2 = (1+g)^2 >= 1 by a telescoping-product induction valid for all M; "
-                  "UF f2 >= front(f1) via fold invariants of the accumulation loop); ZDT/DTLZ evaluate raises no Python exception on in-bounds input; DTLZ sampler construction "
-                  "(distance variables 1/2) meets the front equation with equality; for the WFG4-9 shape stage sum (f_m/2m)^2 >= 1 given the transformed vector in [0,1]^M. "
-                  "All 43 classes and the DTLZ/WFG samplers are covered on the real code by a differential oracle against independent reference implementations "
-                  "(ZDT1-6, DTLZ1-4,7, UF1-10, UF13, CF1-10, WFG1-9; relative tolerance 1e-9), output count/finiteness checks at corners, boundary and random points, "
-                  "front inequalities, and sampler checks (in-bounds, front equation to 1e-9, mutual non-dominance: a batch fails when one sample is better than another "
-                  "by more than 1e-9 in EVERY objective).",
+                  "Python-AST translator on every run (all 40 real-valued problem classes except UF11/UF12 and every WFG helper are generated). Proved, for every supported size: "
+                  "ZDT1-4,6 (n >= 2), DTLZ1-4 (every M >= 1, n >= M-1), DTLZ7, UF1-7 (n >= 3), CF1 and CF3 incl. their constraint value: generated = published formula written independently "
+                  "from the papers, exactly nobjs objectives (and nconstrs constraints for CF1/CF3); front bounds: ZDT g >= 1 and f2 >= front(f1); DTLZ1 sum f = (1+g)/2 >= 1/2; "
+                  "DTLZ2-4 sum f^2 = (1+g)^2 >= 1 (telescoping-product induction, all M); UF1-4,7 f2 >= front(f1) (fold invariants); WFG4, WFG5, WFG7, WFG8: the FULL clause "
+                  "sum (f_m/2m)^2 >= 1 for every in-bounds z and every nobjs on the translated evaluate pipelines, via range lemmas of s_linear, s_multi, s_decept, b_param, r_sum (each maps [0,1] into [0,1], "
+                  "_correct_to_01 modelled literally) and the concave-shape identity; exception-freedom (*_defined) for ZDT1-4,6, DTLZ1-4,7, UF1-4,7 and the scalar WFG transformations; "
+                  "DTLZ sampler construction meets the front equation with equality. All 43 classes and the DTLZ/WFG samplers are covered on the real code by a differential oracle "
+                  "against independent reference implementations (ZDT1-6, DTLZ1-4,7, UF1-10, UF13, CF1-10, WFG1-9; relative tolerance 1e-9), output count/finiteness checks at corners, "
+                  "boundary and random points, front inequalities, and sampler checks (in-bounds, front equation to 1e-9, mutual non-dominance: a batch fails when one sample is better "
+                  "than another by more than 1e-9 in EVERY objective).",
     "level_note": "Theorems are over Coq's classical real numbers: binary64 rounding and libm are NOT modelled (on the front a float result may undershoot by ulps; the oracle uses 1e-9 slack). "
                   "Axioms (Print Assumptions): ClassicalDedekindReals.sig_forall_dec, ClassicalDedekindReals.sig_not_dec, FunctionalExtensionality.functional_extensionality_dep "
                   "(the standard library's construction of R) and Classical_Prop.classic (standard-library facts about exp/ln/Rpower/sqrt). "
-                  "Trusted: the translator's reading of Python (float->R with literals read as written decimals, int->Z, list->list R, the helpers of coq/Base/RList.v), "
-                  "the reference formulas of coq/Model/ProblemsRef.v being the published ones. DTLZ4 is proved for alpha at its constructor default 100. "
-                  "PARTIAL: wfg_lower_partial is about the shape stage only and assumes the transformed vector lies in [0,1]^M (the WFG transformations/evaluate methods use "
-                  "map/functools.partial, are not translated, and their range lemmas are not proved); no *_defined (exception-freedom) theorem for UF1-4,7 and the WFG helpers "
-                  "(the predicates are generated; proofs not done). UF5,6,8,9,10 and the other WFG shape/transformation helpers are translated without theorems; "
-                  "CF1-10 are rejected by the translator (constraint stores are outside the grammar); those, WFG1-9 evaluate, UF11-13 and ZDT5 are covered by the differential oracle only. "
-                  "UF11/UF12 have no independent reference (count/finiteness only). Sampler non-dominance: a pair is reported only when one sample is better by > 1e-9 in every objective; "
-                  "float-vector dominance with a tie within 1e-9 in some objective (DTLZ4.random: cos of an angle < 1.5e-8 rounds to exactly 1.0, giving pairs like (1.0, 1e-87, 1e-17) vs (1.0, 6e-13, 4.5e-9) "
-                  "that both lie on the unit sphere) is counted in the evidence, not reported. Recorded known findings: WFG1.random/UF13.random off-front (rounding of 0.35*2i/(2i) amplified by the 0.02 power), "
-                  "DTLZ7.random/WFG2.random batches not mutually non-dominated (disconnected fronts).",
+                  "Trusted: the translator's reading of Python (float->R with literals read as written decimals, int->Z, list->list R, the helpers of coq/Base/RList.v; self.k/self.m/nconstrs resolved from the constructors; "
+                  "DTLZ4's constructor parameter alpha is a parameter of the generated function and math.pow(x, alpha) is read as the real power exp(alpha ln x), 0^alpha = 0, so the DTLZ4 theorems hold for every real alpha, exception-freedom for alpha >= 0), the reference formulas of coq/Model/ProblemsRef.v being the published ones. "
+                  "PARTIAL: WFG6 and WFG9 lower bounds (c18_wfg6_lower_partial, c18_wfg9_lower_partial) take the one missing lemma as an explicit premise, r_nonsep_full_range: "
+                  "r_nonsep(y, |y|) maps [0,1]^n into [0,1], i.e. sum y_j + sum_{i<>j}|y_i-y_j| <= ceil(n/2)(1+2n-2ceil(n/2)); everything else of those pipelines (incl. r_nonsep with A = 1) is proved. "
+                  "NOT proved (differential oracle only): gen_eq_ref/out_length for UF8-10, CF2, CF4-10 and the WFG1-9 pipelines as a whole (only the WFG4-9 shape stage has gen_eq_ref), "
+                  "ZDT3's front curve (the property asks g >= 1 for ZDT, which is proved), ZDT5 (binary, outside the translator), UF11-13, WFG1-3 fronts, *_defined for UF5-10, CF and the list-level "
+                  "WFG pipelines (index ranges of _subvector/_r_sum, non-empty groups). UF11/UF12 have no independent reference (count/finiteness only). "
+                  "Sampler non-dominance: a pair is reported only when one sample is better by > 1e-9 in every objective; float-vector dominance with a tie within 1e-9 in some objective "
+                  "(DTLZ4.random: cos of an angle < 1.5e-8 rounds to exactly 1.0) is counted in the evidence, not reported. Recorded known findings: WFG1.random/UF13.random off-front "
+                  "(rounding of 0.35*2i/(2i) amplified by the 0.02 power), DTLZ7.random/WFG2.random batches not mutually non-dominated (disconnected fronts).",
     "technique": "Coq proof over Reals about a model regenerated from the Python source by a fail-closed AST translator + differential oracle against independent reference implementations",
 }
 
@@ -143,6 +144,9 @@ def configs(ctx):
     out = []
     for M in Ms:
         out += [("DTLZ1", (M,)), ("DTLZ2", (M,)), ("DTLZ2", (M, M + 3)), ("DTLZ3", (M,)), ("DTLZ3", (M, M + 1)), ("DTLZ4", (M,)), ("DTLZ7", (M,))]
+        # constructor parameters that change the formula: DTLZ4's alpha (the only one in problems.py besides nobjs/nvars;
+        # the WFG classes do not expose k/l)
+        out += [("DTLZ4", (M, a)) for a in (1.0, 2, 2.5, 10.0)]
         out += [("WFG%d" % i, (M,)) for i in range(1, 10)]
     for nv in ctx.scale((30, 10, 7), (30, 10, 7, 6, 15, 50)):
         out += [("UF%d" % i, (nv,)) for i in range(1, 11)]
@@ -213,7 +217,7 @@ def check_point(ctx, cls, args, p, x, tag="", record=True):
     k = getattr(p, "k", None)
     ref = None
     try:
-        ref = R.reference(cls, x, p.nobjs, k)
+        ref = R.reference(cls, x, p.nobjs, k, alpha=getattr(p, "alpha", None))
         if ref is not None and not all(math.isfinite(v) for v in ref[0] + ref[1]):
             ref = "undefined"
     except (ZeroDivisionError, ValueError, OverflowError):
@@ -434,7 +438,9 @@ def run(ctx):
     for cls in SAMPLER_CLASSES:
         for M in (ctx.scale((2, 3, 5), (2, 3, 4, 5, 8)) if cls != "UF13" else (5,)):
             args = () if cls == "UF13" else (M,)
-            for _rep in range(ctx.scale(1, 5)):
+            variants = [args] + ([(M, 1.0), (M, 2), (M, 10.0)] if cls == "DTLZ4" else [])
+            for args in variants:
+              for _rep in range(ctx.scale(1, 5)):
                 seed = ctx.rng.getrandbits(31)
                 fails, objs = check_sampler(ctx, cls, args, seed, batch)
                 sampler_runs += 1
